@@ -170,6 +170,33 @@ def check_case(case, rec):
     if V.frame_key(d) != before:
         rec.violation("group", "receiver-changed", {"cols": cols, "by": by, "ops": case["ops"]}, "frame changed by grouped operations")
     rec.sample({"cols": cols, "by": by, "ops": case["ops"][:2]})
+    # second phase: the same frame object with a key cell edited in place must be grouped as it is now
+    k0 = by[0]
+    if case.get("poke") and n >= 2 and not V.same_value(cells[k0][0], cells[k0][n - 1]):
+        col = d[k0]
+        col[0] = col[n - 1]
+        cells2 = dict(cells)
+        cells2[k0] = [cells[k0][n - 1]] + list(cells[k0][1:])
+        groups2 = group_rows([cells2[k] for k in by], n)
+        two_phase = {"cols": cols, "by": by, "ops": case["ops"], "poke": True}
+        old = di.USE_NUMBA
+        di.USE_NUMBA = False
+        try:
+            for op in ("aggregate-core", "count"):
+                rec.case((before, tuple(by), op, "poked"), nontrivial)
+                rec.trans()
+                d._group_colnames = ()
+                try:
+                    msg = run_op(d, op, by, n, groups2, cells2, rec)
+                except Exception as e:
+                    rec.violation(op, "after-in-place-edit:raised", two_phase, f"{type(e).__name__}: {e}")
+                    continue
+                finally:
+                    d._group_colnames = ()
+                if msg:
+                    rec.violation(op, "after-in-place-edit:relation", two_phase, msg)
+        finally:
+            di.USE_NUMBA = old
 
 
 def check_keys(out, by, groups):
@@ -279,7 +306,7 @@ def run_shard(shard, rec):
         for toks in it:
             toks = list(toks)
             cols = [["k", kind, toks]] + payload_cols(len(toks))
-            check_case({"cols": cols, "by": ["k"], "ops": ops}, rec)
+            check_case({"cols": cols, "by": ["k"], "ops": ops, "poke": True}, rec)
     elif shard["part"] == "long":
         kind, length = shard["kind"], shard["length"]
         alpha = V.alphabet(kind, "key")
